@@ -50,6 +50,26 @@ Definition is_compatible (m : mmodel) (c : circ) (opl : option (list nat)) : opt
                     (combine (seq 0 (cw c)) (crad c)) then Some false
     else Some true.
 
+(* is_compatible as of repo commit 3be8a2b (finding C02-F5 repaired): barrier / measurement / reset placeholders
+   ([ph g = true]) are skipped by the native-gate test, and when the circuit holds one the coupling test runs over the
+   pairs of the remaining operations ({pair for op in circuit if not placeholder for pair in op.location.pairs})
+   instead of circuit.coupling_graph.  Width and radix tests are unchanged. *)
+Definition strip (ph : nat -> bool) (c : circ) : circ :=
+  {| cw := cw c; crad := crad c; cops := filter (fun o => negb (ph (og o))) (cops c) |}.
+Definition is_compatible_ph (ph : nat -> bool) (m : mmodel) (c : circ) (opl : option (list nat)) : option bool :=
+  if mn m <? cw c then Some false
+  else if existsb (fun o => negb (ph (og o)) && negb (gmem (og o) (mgates m))) (cops c) then Some false
+  else
+    let pl := placement_of c opl in
+    let edges := if existsb (fun o => ph (og o)) (cops c) then circ_edges (strip ph c) else circ_edges c in
+    if negb (wf_pl m c pl && wf_circ c) then None
+    else if existsb (fun e => negb (raw_mem (nth (fst e) pl 0) (nth (snd e) pl 0) (edges_norm (medges m)))
+                              && negb (raw_mem (nth (snd e) pl 0) (nth (fst e) pl 0) (edges_norm (medges m))))
+                    edges then Some false
+    else if existsb (fun ir => negb (snd ir =? nth (nth (fst ir) pl 0) (mrad m) 0))
+                    (combine (seq 0 (cw c)) (crad c)) then Some false
+    else Some true.
+
 (* ---- the independent check: width, native gates, coupling (symmetric), radixes -------------------- *)
 Definition coupled (m : mmodel) (a b : nat) : bool :=
   existsb (fun e => ((fst e =? a) && (snd e =? b)) || ((fst e =? b) && (snd e =? a))) (medges m).
